@@ -34,6 +34,53 @@ Qed.
 Lemma covers_cov : forall fs n, covers fs n <-> (forall x, 0 <= x < n -> cov fs x).
 Proof. intros. reflexivity. Qed.
 
+(* ------------------------------------------------------------------ a completed reassembler
+   The state in which the call that delivered the datagram leaves the reassembler until
+   Fragmentation.release marks it done: every hole deleted, the heap emptied by reassemble.
+   Sequentially no call ever sees it (release follows in the same Process call); concurrently
+   another goroutine holding the same *reassembler can (Model/FragConc.v).  Whatever the arguments,
+   such a call fills no hole, stores nothing, passes the [r.deleted < len(r.holes)] test and takes
+   the [r.heap.Len() == 0] return added by commit 3ed1739: it returns not-done with no bytes and
+   leaves the reassembler as it was. *)
+Record RComp (r : reasm) : Prop := {
+  rc_done : r_done r = false;
+  rc_all : Forall (fun h => h_del h = true) (r_holes r);
+  rc_del : Z.of_nat (length (r_holes r)) <= r_deleted r;
+  rc_heap : r_heap r = []
+}.
+
+Lemma uh_loop_all_deleted : forall hs first last more,
+  Forall (fun h => h_del h = true) hs -> uh_loop hs first last more = (hs, [], 0, false).
+Proof.
+  induction hs as [|h t IH]; intros first last more Hall; [reflexivity|].
+  inversion Hall as [|? ? Hh Ht]; subst.
+  rewrite uh_loop_cons, (IH _ _ _ Ht), Hh. reflexivity.
+Qed.
+
+Lemma ndel_all_deleted : forall hs, Z.of_nat (length hs) <= ndel hs -> Forall (fun h => h_del h = true) hs.
+Proof.
+  induction hs as [|h t IH]; intros H; [constructor|].
+  rewrite ndel_cons in H. cbn [length] in H. pose proof (ndel_bounds t) as Hb.
+  destruct (h_del h) eqn:E; [|lia]. constructor; [exact E|apply IH; lia].
+Qed.
+
+Lemma rprocess_completed : forall r first last more pl, RComp r ->
+  rprocess r first last more pl = (r, mkPres [] false 0 false false).
+Proof.
+  intros r first last more pl [Hd Hall Hdel Hheap].
+  unfold rprocess, updateHoles. rewrite Hd, (uh_loop_all_deleted _ _ _ _ Hall).
+  rewrite app_nil_r, Z.add_0_r.
+  destruct r as [id sz holes del hp dn ct]. cbn [r_id r_size r_holes r_deleted r_heap r_done r_ctime] in *.
+  subst hp dn.
+  destruct (Z.ltb_spec del (Z.of_nat (length holes))) as [Hlt|_]; [lia|].
+  reflexivity.
+Qed.
+
+(* a reassembler marked done (by Fragmentation.release): process returns at once *)
+Lemma rprocess_done : forall r first last more pl, r_done r = true ->
+  rprocess r first last more pl = (r, mkPres [] false 0 false false).
+Proof. intros r first last more pl Hd. unfold rprocess. now rewrite Hd. Qed.
+
 Section Datagram.
   Variable D : list Z.
   Let n := zlen D.
@@ -294,7 +341,7 @@ Section Datagram.
     RInv r seen -> frag_of D f ->
     rprocess r (i_first f) (i_last f) (i_more f) (i_pl f) = (r', o) ->
     p_panic o = false /\ p_err o = false /\ 0 <= p_consumed o <= zlen (i_pl f) /\
-    ((covers (seen ++ [f]) n /\ p_done o = true /\ p_res o = D) \/
+    ((covers (seen ++ [f]) n /\ p_done o = true /\ p_res o = D /\ RComp r') \/
      (~ covers (seen ++ [f]) n /\ p_done o = false /\ p_res o = [] /\ RInv r' (seen ++ [f]))).
   Proof.
     intros r seen f r' o I Hf E.
@@ -320,10 +367,20 @@ Section Datagram.
       right. split; [intros Hcv; apply Hiff in Hcv; congruence|].
       split; [reflexivity|]. split; [reflexivity|exact I2].
     - assert (Hcv : covers (seen ++ [f]) n) by (apply Hiff; auto).
+      (* position 0 is covered, so a fragment is stored: not the empty-heap branch *)
+      destruct (length (r_heap r2) =? 0)%nat eqn:Eemp.
+      { exfalso. apply Nat.eqb_eq, length_zero_iff_nil in Eemp.
+        destruct (proj2 (ri_cover _ _ I2 0) (Hcv 0 ltac:(lia))) as [it [Hin _]].
+        rewrite Eemp in Hin. destruct Hin. }
       rewrite (reassemble_ok (r_heap r2)) in E.
       + injection E as <- <-. cbn [p_panic p_err p_consumed p_done p_res].
         split; [reflexivity|]. split; [reflexivity|]. split; [lia|].
-        left. split; [exact Hcv|]. split; reflexivity.
+        left. split; [exact Hcv|]. split; [reflexivity|]. split; [reflexivity|].
+        constructor; cbn [set_heap r_done r_holes r_deleted r_heap].
+        * apply (ri_done _ _ I2).
+        * apply ndel_all_deleted. rewrite <- (ri_del _ _ I2). lia.
+        * lia.
+        * reflexivity.
       + apply (ri_heap_ok _ _ I2).
       + apply (ri_slices _ _ I2).
       + intros x Hx. apply (ri_cover _ _ I2). apply Hcv. auto.
@@ -357,7 +414,7 @@ Proof.
   destruct (rprocess_step D Hn r seen f r' o I Hf E) as (P1 & P2 & P3 & Hcase).
   destruct k as [|k].
   - cbn [nth firstn]. split; [auto|]. split; [auto|].
-    destruct Hcase as [(C & Dn & R)|(C & Dn & R & _)]; split; intros; try tauto; auto.
+    destruct Hcase as [(C & Dn & R & _)|(C & Dn & R & _)]; split; intros; try tauto; auto.
   - cbn [nth].
     destruct Hcase as [(C & _)|(C & Dn & R & I')].
     + exfalso. apply (Hbefore 0%nat ltac:(lia)). cbn [firstn]. auto.
